@@ -5,7 +5,7 @@ from __future__ import annotations
 import json
 from pathlib import Path
 
-from common import cstr, rng_for
+from common import cstr, clist, cbool, rng_for
 from opbase import Op, pmap
 import forms
 import treegen
@@ -15,7 +15,9 @@ PID = "C02"
 GUARD = "names are slash-free (is_xml_tag names are XML Names); the `flat` setting (legacy ODK Tables) is outside the model"
 MODELLED = ("get_xpath, Section.xml_instance / generate_repeating_template / template_instance, the nodeset/ref of xml_bindings, _build_xml, "
             "RepeatingSection/GroupedSection.xml_control, sibling and section-name validation (coq/Model/Tree.v). setvalue/action refs, entity "
-            "attribute binds and stage-B generated helpers (*_count, *_other, table-list) are covered by the lxml closure oracle on real convert() output")
+            "attribute binds and stage-B generated helpers (*_count, *_other, table-list) are covered by the lxml closure oracle on real convert() output. "
+            "The flat flag (Section.xml_instance_array, the flat test in get_xpath, _iter_instance_children) is modelled in coq/Model/Flat.v, "
+            "for groups; names are compared through lower_ascii in the correspondence")
 ASSUMPTIONS = ["the element tree is the one builder.create_survey_element_from_dict returns for the same nesting"]
 
 JRT = "{http://openrosa.org/javarosa}template"
@@ -103,8 +105,76 @@ class ValidateOp(Op):
         return cases
 
 
+class FlatOp(Op):
+    """sections carrying the `flat` flag (set by the flat setting, here through the JSON API so that flat and non-flat sections mix):
+    validity, the primary instance and every get_xpath() against Model/Flat.v"""
+    name = "T.flat"
+    imports = ["PX.Model.Warnings", "PX.Model.Flat"]
+    fn = "show_flat lower_ascii"
+    in_ty = "ft"
+    n_quick, n_thorough = 300, 3000
+
+    def generate(self, rng, n):
+        from pyxform.builder import create_survey_element_from_dict
+        from pyxform.errors import PyXFormError
+        cases = []
+        for _ in range(n):
+            counter = [0]
+            qnames = ["a", "b", "c", "A", "q1", "x_y"]
+
+            def node(depth):
+                if depth < 4 and rng.random() < 0.4:
+                    counter[0] += 1
+                    return ("S", f"g{counter[0]}", rng.random() < 0.6, [node(depth + 1) for _ in range(rng.randint(1, 3))])
+                if rng.random() < 0.75:
+                    return ("Q", rng.choice(qnames))
+                counter[0] += 1
+                return ("Q", f"u{counter[0]}")
+            kids = [node(1) for _ in range(rng.randint(1, 4))]
+
+            def to_json(t):
+                if t[0] == "Q":
+                    return {"type": "text", "name": t[1], "label": t[1]}
+                return {"type": "group", "name": t[1], "label": t[1], "flat": t[2], "children": [to_json(k) for k in t[3]]}
+
+            def to_coq(t):
+                if t[0] == "Q":
+                    return f"(FQ {cstr(t[1])})"
+                return f"(FS {cstr(t[1])} {cbool(t[2])} {clist([to_coq(k) for k in t[3]], 'ft')})"
+            d = {"type": "survey", "name": "data", "id_string": "t", "title": "t", "children": [to_json(k) for k in kids]}
+            try:
+                s = create_survey_element_from_dict(d)
+                x = s.to_xml(validate=False, pretty_print=False)
+            except PyXFormError:
+                exp = "X||"
+            else:
+                root = xf.lparse(x)
+                inst = root.find(xf.H + "head").find(xf.XF + "model").find(xf.XF + "instance")[0]
+
+                def ren(e):
+                    return etree_local(e) + "(" + "".join(ren(c) + ";" for c in e if isinstance(c.tag, str)) + ")"
+                paths = [e.get_xpath().lstrip("/") for e in s.iter_descendants() if e is not s and not getattr(e, "flat", False)]
+                exp = "V|" + "".join(ren(c) + ";" for c in inst if isinstance(c.tag, str)) + "|" + " ".join(paths)
+            flat_n = sum(1 for _ in _walk(kids) if _[0] == "S" and _[2])
+            cases.append({"coq": f"(FS {cstr('data')} false {clist([to_coq(k) for k in kids], 'ft')})", "expected": exp, "desc": {"tree": kids},
+                          "class": ("valid" if exp[0] == "V" else "rejected") + f"/flat{min(flat_n, 3)}", "nontrivial": flat_n > 0})
+        return cases
+
+
+def _walk(kids):
+    for k in kids:
+        yield k
+        if k[0] == "S":
+            yield from _walk(k[3])
+
+
+def etree_local(e):
+    from lxml import etree
+    return etree.QName(e).localname
+
+
 def ops(tier):
-    return [TreeOp(), ValidateOp()]
+    return [TreeOp(), ValidateOp(), FlatOp()]
 
 
 # ---- direct oracle: reference closure and uniqueness on real convert() output -----------------------------
